@@ -82,6 +82,10 @@ def decode_message(msg_bytes, time=0, check=True):
         if not isinstance(byte, Integral):
             raise TypeError('message bytes must be int')
 
+    # Work on plain ints: subclasses of int with arithmetic of their own
+    # (enum.IntFlag, for one) would distort the packed values.
+    msg_bytes = [int(byte) for byte in msg_bytes]
+
     status_byte = msg_bytes[0]
     data = msg_bytes[1:]
 
